@@ -394,7 +394,7 @@ impl Opts {
             runs_override,
             workers,
             write_evidence: true,
-            minimise: true,
+            minimise: std::env::var("VERIF_NO_MIN").is_err(),
         }
     }
 }
